@@ -19,7 +19,12 @@
     harness reads from heimdall's configuration loader at the start of the run: 4 KiB to read — most sized bodies are
     longer; the head of some requests fills what the servers read for it to the last byte) and hosts come with ports
     spelled out, the default port of the scheme included (`Request.URL.Host`, `Hostname()`, `Port()` are read by
-    templates, CEL expressions and host matchers)."""
+    templates, CEL expressions and host matchers).
+    In a quarter of the covered cases (`via`) the services are configured with `trusted_proxies` and the HTTP decision
+    service does not receive the logical request itself but — as behind Traefik forwardAuth / NGINX auth_request — a
+    request of a trusted gateway (own method, transport and target) that describes it in X-Forwarded-Method / -Proto /
+    -Host / -Uri, while the proxy service and the Envoy gRPC service receive the logical request: decision and view
+    have to be the same (theorem c13_delegated_request_is_the_logical_request)."""
 import concurrent.futures
 import copy
 import json
@@ -35,6 +40,7 @@ EPS = ("decision", "envoy", "proxy")
 KF_HOST = "C13-headers-host-entry"
 KF_FIRST = "C13-first-header-value"
 KF_RAW = "C13-envoy-raw-path-octets"
+VIA_HEADERS = ("X-Forwarded-Method", "X-Forwarded-Proto", "X-Forwarded-Host", "X-Forwarded-Uri")
 KF_TEXT = {
     KF_RAW: "for a path with octets that may not stand in a path (\" < > ^ ` { | } \\ non-ASCII) the raw path shown by "
             "the Envoy gRPC service keeps the octets, that of the decision and proxy services has them percent-encoded "
@@ -172,7 +178,7 @@ def spec_diff(case, i, m):
     spec = m.get("spec") if isinstance(m, dict) else None
     ci = canon_impl(i)
     if not spec or not spec.get("wellformed") or not spec.get("fits", True) or not isinstance(ci, dict) \
-            or "load" in ci:
+            or "load" in ci or (case.get("via") and not spec.get("forwardable")):
         # outside the statement: not well-formed, or a head larger than the HTTP based services read (431 there)
         return viol, hits
     if suspicious(i):
@@ -199,6 +205,11 @@ def spec_diff(case, i, m):
                 # encoded — for a request outside `covered` (such octets in the path) and nothing else
                 hits.append(KF_RAW)
                 sa = dict(sa, rawpath=ss.get("rawpath"))
+            if ep == "decision" and case.get("via"):
+                # the four lines in which the trusted gateway describes the logical request are lines of the gateway's
+                # message, not of the logical request (hop headers: outside the statement); everything else of
+                # `Headers()` is compared
+                sa = dict(sa, headers=[h for h in sa.get("headers") or [] if h[0] not in VIA_HEADERS])
             view_diff(ep, sa, ss, viol, hits)
         ua, us = a.get("up"), s.get("up")
         if (ua is None) != (us is None):
@@ -294,6 +305,15 @@ def candidates(cur):
         c = copy.deepcopy(cur)
         c["log"] = "disabled"
         yield c
+    if cur.get("via") is not None:
+        c = copy.deepcopy(cur)
+        c.pop("via")
+        yield c
+        for fld, val in (("proxies", ["127.0.0.1"]), ("method", None), ("tls", False), ("path", "/")):
+            if cur["via"].get(fld) != val:
+                c = copy.deepcopy(cur)
+                c["via"][fld] = val
+                yield c
     if cur.get("limits") is not None:
         c = copy.deepcopy(cur)
         c.pop("limits")
@@ -482,6 +502,19 @@ def features(case):
         f.append("host-matcher-looking-at-the-port")
     if "default" in case:
         f.append("default-rule")
+    via = case.get("via")
+    if via:
+        f.append("via-trusted-gateway")
+        if (via.get("method") or r["method"]) != r["method"]:
+            f.append("via-method-differs")
+        if via.get("tls") != r["tls"]:
+            f.append("via-transport-differs")
+        if "," in r["path"] + r["query"]:
+            f.append("via-comma-in-forwarded-uri")
+        if "%" in r["path"]:
+            f.append("via-escape-in-forwarded-uri")
+        if r["query"]:
+            f.append("via-query-in-forwarded-uri")
     if any(gen_entryview.canon(n).startswith("X-C13-") for n in names):
         f.append("client-sends-pipeline-header")
     rc = case.get("respond") or {}
@@ -603,7 +636,10 @@ def run(R):
                 "HTTP servers read for it, and beyond it in the stream outside the hypotheses); hosts with a port "
                 "spelled out in 30 % (the default port of the scheme and of the other scheme, leading zeros, no "
                 "digits, IPv6 literals), host matchers that look at the port, probes Request.URL.Hostname() / "
-                "Port(). Each case goes through the "
+                "Port(); in 25 % of the well-formed cases (`via`) the services run with `trusted_proxies` (single "
+                "address, CIDR range, 0.0.0.0/0) and the HTTP decision service is asked by a trusted gateway whose own "
+                "request (method GET / POST / the client's, plain or TLS, target /decide …) carries the logical request "
+                "in X-Forwarded-Method / -Proto / -Host / -Uri. Each case goes through the "
                 "real decision, proxy and Envoy ext_authz services and through the Lean model and reference "
                 "semantics. Non-trivial = a rule (or the default rule) was reached, some finalizer echoes the view, "
                 "and the request has a feature in which the carriers differ (escape in the path, query, repeated or "
@@ -634,8 +670,13 @@ def run(R):
         "known finding C13-envoy-raw-path-octets), header names are tokens and none of Host / Forwarded / "
         "X-Forwarded-* (removed by the trustedproxy middleware: C09), at most one Cookie line; outside them only "
         "impl = model is checked",
-        "no trusted proxies configured; scheme = transport of the listener (TLS or not); client IP addresses are not "
-        "part of the logical request",
+        "without `via`: no trusted proxies configured, scheme = transport of the listener (TLS or not); with `via`: the "
+        "peer (127.0.0.1) is a trusted proxy and the decision service is asked by a gateway that passes the Host line, "
+        "the header lines and the body of the client on and writes X-Forwarded-Method / -Proto / -Host / -Uri first "
+        "(a gateway that sends a Host line of its own, X-Forwarded-Uri values outside origin form — `//…` is read as an "
+        "authority by url.Parse — or with `#`, and a proxy service behind a front proxy are not exercised); the four "
+        "gateway lines are taken out of Headers() before it is compared with the reference; client IP addresses are "
+        "not part of the logical request",
         "log level: the services get the logger cmd/serve builds for `log.level`, writing to a discarded writer (text "
         "/ gelf formatting of the real writer is not exercised); the model reads the level in the dump middleware only "
         "(theorem c13_view_independent_of_log_level), the tie varies it on every case",
